@@ -74,6 +74,9 @@ CLASSES = {
                              "src": ("models.grounded_precondition", "GroundedPrecondition")},
     "set_GroundedEffect": {"fields": {"items": ("seq", ("ref", "GroundedEffect"))}, "bases": [], "lib": True},
     "GroundedEffect": {"fields": {"grounded_antecedents": ("ref", "opaque")}, "bases": [], "src": ("models.grounded_effect", "GroundedEffect")},
+    "PreconditionsParser": {"fields": {}, "bases": [], "src": ("lisp_parsers.preconditions_parser", "PreconditionsParser")},
+    "DomainParser": {"fields": {"preconditions_parser": ("ref", "PreconditionsParser"), "partial_parsing": "bool"}, "bases": [],
+                     "src": ("lisp_parsers.domain_parser", "DomainParser")},
     "ENHSPParser": {"fields": {}, "bases": [], "src": ("exporters.enhsp_output_parser", "ENHSPParser")},
     "MetricFFParser": {"fields": {}, "bases": [], "src": ("exporters.ff_output_parser", "MetricFFParser")},
 }
